@@ -27,7 +27,8 @@ def run(tier: str) -> int:
                                 inputs=profiles.inputs_exhaustive(4, 6, cap_q=150, cap_t=1000), per_tu=2, use_sem=True,
                                 configs=profiles.amr_configs(ams=AM)),
     ]
-    return engine.run_engine('C09', tier, ['PegtlVerif.Props.C09'], ps)
+    from .c09_doc import doc_part
+    return engine.run_engine('C09', tier, ['PegtlVerif.Props.C09'], ps, extra=lambda v, cov, rng: doc_part(v, cov, rng, tier))
 
 
 def replay(path: str) -> int:
